@@ -231,7 +231,7 @@ func shortType(t types.Type) string {
 }
 
 // Fn resolves an anchor; nil when missing (callers turn that into "undecided").
-func (c *Ctx) Fn(name string) *ssa.Function { return c.byName[name] }
+func (c *Ctx) Fn(name string) *ssa.Function { mention(name); return c.byName[name] }
 
 func (c *Ctx) Pos(p token.Pos) string {
 	if !p.IsValid() {
@@ -273,6 +273,9 @@ func (c *Ctx) ProdFuncs() []*ssa.Function {
 	for _, f := range c.Funcs {
 		if (f.Synthetic != "" && len(f.TypeArgs()) == 0) || c.IsTestFile(f.Pos()) {
 			continue
+		}
+		if helperSite[f] != nil {
+			continue // spliced into its caller: visited through the caller
 		}
 		out = append(out, f)
 	}
